@@ -397,6 +397,77 @@ func runDNSCase(run *ev.Run, fd *fakeDNS, cs dnsCase) {
 	}
 }
 
+// runDNSRefreshCase: the records of a host change twice during an attack with a small dns-ttl.
+// Once the cache has asked the resolver again after a change (seen at the in-process DNS server:
+// two more rounds of A and AAAA queries), every connection attempt goes to an address of the
+// current set. "The cache never asks again" is decided on the harness' own progress (thousands of
+// its polling rounds went by, each at least a quarter of the ttl long), not on wall-clock time.
+func runDNSRefreshCase(run *ev.Run, fd *fakeDNS, host string, ttl time.Duration) {
+	sets := [][]string{{"10.77.1.1", "10.77.1.2"}, {"10.77.2.1", "10.77.2.2", "10.77.2.3"}, {"10.77.3.1"}, {"10.77.4.1", "2001:db8:77::4"}}
+	rd := &recDialer{mode: "fail"}
+	tr := &http.Transport{DialContext: rd.DialContext, DisableKeepAlives: true}
+	atk := vegeta.NewAttacker(vegeta.Client(&http.Client{Transport: tr}), vegeta.DNSCaching(ttl))
+	defer atk.Stop()
+	dial := tr.DialContext
+	det := map[string]any{"host": host, "dns_ttl": ttl.String(), "record_sets_in_turn": sets}
+	dials := func(n int) []string {
+		rd.take()
+		for i := 0; i < n; i++ {
+			ctx, cancel := context.WithCancel(context.Background())
+			if c, err := dial(ctx, "tcp", net.JoinHostPort(host, "8080")); err == nil {
+				c.Close()
+			}
+			cancel()
+		}
+		var out []string
+		for _, r := range rd.take() {
+			h, _, _ := net.SplitHostPort(r.Addr)
+			out = append(out, h)
+		}
+		return out
+	}
+	fd.set(host, sets[0])
+	run.Eval(1)
+	for phase, set := range sets {
+		if phase > 0 {
+			a0, q0 := fd.queryCount(host)
+			fd.set(host, set)
+			rounds := 0
+			for {
+				a1, q1 := fd.queryCount(host)
+				if a1 >= a0+2 && q1 >= q0+2 {
+					break
+				}
+				// keep the entry in use while waiting, as an attack does
+				dials(1)
+				time.Sleep(ttl / 4)
+				if rounds++; rounds > 4000 {
+					det["phase"] = phase
+					run.Violate("C18/dns-cache-not-refreshed/after-record-change", fmt.Sprintf("dns-ttl %v: the records of %s were changed (for the %d. time) and the host kept being dialled, but over %d polling rounds of at least %v each the cache asked the resolver only %d more times", ttl, host, phase, rounds, ttl/4, (a1-a0)+(q1-q0)), det)
+					return
+				}
+			}
+			time.Sleep(ttl / 2) // the answers are being stored
+		}
+		cur := map[string]bool{}
+		for _, ip := range set {
+			cur[net.ParseIP(ip).String()] = true
+		}
+		got := dials(150)
+		run.Count("dials_after_a_record_change", int64(len(got)))
+		for _, h := range got {
+			if ip := net.ParseIP(h); ip == nil || !cur[ip.String()] {
+				det["phase"], det["current_records"] = phase, set
+				run.Violate("C18/dial-to-unresolved-address/after-record-change", fmt.Sprintf("dns-ttl %v: %s resolves to %v now (the cache has asked the resolver twice since the change), yet a connection attempt went to %s", ttl, host, set, h), det)
+				return
+			}
+		}
+	}
+	run.Count("dns_histories_with_changing_records", 1)
+	run.Class("dns/records-change")
+	run.Distinct("dns-refresh:" + host)
+}
+
 // ---- connect-to histories -------------------------------------------------------
 
 type ctOp struct {
@@ -710,6 +781,7 @@ func c18Child(c *Ctx) int {
 	defer fd.srv.Shutdown()
 	switch mode {
 	case "dns":
+		runDNSRefreshCase(run, fd, fmt.Sprintf("refresh%d.s%d.verif.test", shard, c.Seed%1000), []time.Duration{40 * time.Millisecond, 25 * time.Millisecond, 80 * time.Millisecond}[shard%3])
 		for i := 0; i < n; i++ {
 			cs := dnsCase{
 				Host:    fmt.Sprintf("h%d-%d.s%d.verif.test", shard, i, c.Seed%1000),
